@@ -462,6 +462,20 @@ std::string handle(const std::string& op, Args& a)
 			o << I.domain[0] << I.domain[1];
 		});
 	}
+	if(op == "c10.interp.ctornan")	 // abscissae 0,1,…,n-1 with a NaN at position k
+	{
+		unsigned n = U(a), k = U(a);
+		a.end();
+		return run_forked([&](Out& o) {
+			std::vector<double> xs(n), ys(n, 1.0);
+			for(unsigned i = 0; i < n; i++)
+				xs[i] = i;
+			if(k < n)
+				xs[k] = NAN;
+			Interpolation I(xs, ys);
+			o << I.domain[0] << I.domain[1];
+		});
+	}
 	if(op == "c10.interp.table")
 	{
 		auto t	  = table(a);
@@ -932,6 +946,13 @@ std::string handle(const std::string& op, Args& a)
 			o << s.size();
 		});
 	}
+	if(op == "c10.pdfchibar" || op == "c10.cdfchibar")
+	{
+		double x = a.dbl();
+		auto ws	 = a.dbls();
+		a.end();
+		return run_forked([&](Out& o) { o << (op == "c10.pdfchibar" ? PDF_Chi_Bar_Square(x, ws) : CDF_Chi_Bar_Square(x, ws)); });
+	}
 	if(op == "c10.llbinned" || op == "c10.lbinned")
 	{
 		unsigned n = U(a), m = U(a), k = U(a);
@@ -1061,6 +1082,31 @@ std::string handle(const std::string& op, Args& a)
 		std::string r = run_forked([&](Out& o) {
 			auto t = Import_Table(path, std::vector<double>(nd, 2.0));
 			o << t.size();
+		});
+		unlink(path.c_str());
+		return r;
+	}
+	if(op == "c10.importtable.fill")   // lines with the given numbers of entries, then `blank` blank lines
+	{
+		auto lens	   = a.ints();
+		unsigned blank = U(a), nd = U(a);
+		a.end();
+		std::string path = scratch_file();
+		{
+			std::ofstream f(path);
+			double v = 1.5;
+			for(int l : lens)
+			{
+				for(int j = 0; j < l; j++)
+					f << (j ? "\t" : "") << (v += 0.25);
+				f << "\n";
+			}
+			for(unsigned i = 0; i < blank; i++)
+				f << (i % 2 ? "  \n" : "\n");
+		}
+		std::string r = run_forked([&](Out& o) {
+			auto t = Import_Table(path, std::vector<double>(nd, 2.0));
+			o << t.size() << (t.empty() ? 0 : t[0].size());
 		});
 		unlink(path.c_str());
 		return r;
